@@ -14,8 +14,8 @@ import (
 var (
 	c01MaxAge = []string{"", "0", "1", "10", "abc", "-5", "2147483648", "9223372036854775807", "9223372036854775808", "1180591620717411303424",
 		"0, max-age=3600", "10, MAX-AGE=100000"} // (repeated: the first occurrence counts, or the response is stale)
-	c01Expires = []string{"", "-1", "+0", "+10", "raw:0", "raw:garbage", "raw:"} // ("raw:" = present but empty)
-	c01LastMod = []string{"", "-100", "-864000", "+0", "+100", "raw:garbage", "-105", "-5"} // (10 % of 105 s and of 5 s are no whole seconds)
+	c01Expires = []string{"", "-1", "+0", "+10", "raw:0", "raw:garbage", "raw:"}                      // ("raw:" = present but empty)
+	c01LastMod = []string{"", "-100", "-864000", "+0", "+100", "raw:garbage", "-105", "-5"}           // (10 % of 105 s and of 5 s are no whole seconds)
 	c01Age     = []string{"", "0", "5", "-5", "abc", "2147483648", "100000000000000000000", "90, 95"} // (list-based: the first member counts)
 	c01Date    = []string{"", "-3600", "+3600", "absent", "raw:garbage"}
 	c01Status  = []string{"200", "203", "301", "404", "302public", "302"}
